@@ -40,6 +40,7 @@ def run(ctx):
     rule_compare(ctx, mod, ci)
     rule_text(ctx, mod, ci)
     rule_bounds(ctx, mod, ci)
+    rule_ctor_bounds(ctx, mod, ci)
     rule_hz(ctx, mod, ci)
     rule_helmholtz(ctx, mod, ci)
     ctx.floor("R-C10-1", 8)
@@ -280,6 +281,36 @@ def rule_bounds(ctx, mod, ci):
         ok = bool(paths) and all(p.kind == "raise" and p.value == "ValueError" for p in paths)
         ctx.check(ok, R, "set_note.%s" % kw, fs.where(), "set_note('C', 4, %s=<too large>)" % kw,
                   "an out-of-range %s passes set_note: %s" % (kw, [(p.kind, p.value) for p in paths]))
+
+
+def rule_ctor_bounds(ctx, mod, ci):
+    """Velocity / channel given to the constructor are checked and stored whatever the first argument is
+    (a name, an integer, another note), through the keyword and through the deprecated dynamics dict."""
+    R = "R-C10-4"
+    init = _method(ctx, ci, "__init__")
+    for what in ("name", "integer", "note"):
+        for attr, hi in (("velocity", 127), ("channel", 15)):
+            for via in ("keyword", "dynamics"):
+                for label, sym in (("above", Sym(attr, hi + 1, INF)), ("below", Sym(attr, -INF, -1)), ("inside", Sym(attr, 0, hi))):
+                    def mk(what=what, attr=attr, via=via, sym=sym):
+                        first = {"name": "C", "integer": 61, "note": note_obj(ci, name="D", octave=3, velocity=10, channel=2)}[what]
+                        args = [note_obj(ci), first] + ([] if what != "name" else [4])
+                        if via == "dynamics":
+                            args = args + ([4] if what != "name" else []) + [{attr: Lin.of(sym)}]
+                        return args
+                    kw = {attr: Lin.of(sym)} if via == "keyword" else {}
+                    try:
+                        paths = paths_of(ctx.repo, init, mk, kwargs=kw)
+                    except CannotDecide as e:
+                        raise AnalysisError("Note(<%s>, %s via %s): %s" % (what, attr, via, e))
+                    if label == "inside":
+                        ok = len(paths) == 1 and paths[0].kind == "return" and Lin.of(paths[0].interp.args[0].attrs.get(attr)) == Lin.of(sym)
+                        why = "an in-range %s given to Note(<%s>) by %s is not stored: %s, %s=%r" % (
+                            attr, what, via, [(p.kind, p.value) for p in paths], attr, paths[0].interp.args[0].attrs.get(attr) if paths else None)
+                    else:
+                        ok = bool(paths) and all(p.kind == "raise" and p.value == "ValueError" for p in paths)
+                        why = "a %s %s the range given to Note(<%s>) by %s gives %s instead of ValueError" % (attr, label, what, via, [(p.kind, p.value) for p in paths])
+                    ctx.check(ok, R, "Note(%s).%s.%s.%s" % (what, attr, via, label), init.where(), "Note(<%s>, %s=<%s> via %s)" % (what, attr, label, via), why)
 
 
 def rule_hz(ctx, mod, ci):
